@@ -1,2 +1,195 @@
-import FpgoVerif.Model.C03
-/-! Property theorems for C03 (none yet). -/
+import FpgoVerif.Proofs.C03Loops
+/-! Property theorems for C03: for every helper, the loop-mirroring implementation model equals the
+    documented definition for ALL inputs (so in particular it never panics: the right-hand side is
+    `.ok _` or a plain value).  Helper lemmas live in `Proofs/C03*.lean`. -/
+namespace FpgoVerif.C03
+variable {α β κ ν : Type}
+
+theorem C03_map (z : β) (f : α → β) (xs : List α) : Impl.map z f xs = .ok (Spec.map f xs) := by
+  simp [Impl.map, Spec.map, fillLoop_whole, map_zipIdx_fst]
+  
+
+theorem C03_mapIndexed (z : β) (f : α → Nat → β) (xs : List α) :
+    Impl.mapIndexed z f xs = .ok (Spec.mapIndexed f xs) := by
+  simp [Impl.mapIndexed, Spec.mapIndexed, fillLoop_whole, List.mapIdx_eq_zipIdx_map]
+
+theorem C03_keys (z : κ) (m : List (κ × ν)) : Impl.keys z m = .ok (Spec.keys m) := by
+  simp [Impl.keys, Spec.keys, fillLoop_whole, map_zipIdx_fst (fun p : κ × ν => p.1)]
+
+theorem C03_values (z : ν) (m : List (κ × ν)) : Impl.values z m = .ok (Spec.values m) := by
+  simp [Impl.values, Spec.values, fillLoop_whole, map_zipIdx_fst (fun p : κ × ν => p.2)]
+
+theorem C03_reduce (fn : β → α → β) (memo : β) (xs : List α) :
+    Impl.reduce fn memo xs = .ok (Spec.reduce fn memo xs) := by
+  simpa [Impl.reduce, Spec.reduce] using reduceLoop_spec fn [] xs memo
+
+theorem C03_dropEq [DecidableEq α] (num : α) (xs : List α) : Impl.dropEq num xs = Spec.dropEq num xs := by
+  simp [Impl.dropEq, Spec.dropEq, dropEqLoop_spec]
+
+theorem C03_exists [DecidableEq α] (x : α) (xs : List α) : Impl.exists_ x xs = Spec.exists_ x xs := by
+  induction xs with
+  | nil => simp [Impl.exists_, Spec.exists_]
+  | cons v t ih =>
+    by_cases h : v = x
+    · simp [Impl.exists_, Spec.exists_, h]
+    · have h' : ¬ x = v := fun e => h e.symm
+      simp [Impl.exists_, Spec.exists_, h, h'] at *
+      exact ih
+
+theorem C03_every (f : Option (α → Bool)) (xs : List α) : Impl.every f xs = Spec.every f xs := by
+  cases f with
+  | none => rfl
+  | some f => cases xs <;> simp [Impl.every, Spec.every, everyLoop_eq]
+
+theorem C03_some (f : Option (α → Bool)) (xs : List α) : Impl.some f xs = Spec.some f xs := by
+  cases f with
+  | none => rfl
+  | some f => simp [Impl.some, Spec.some, someLoop_eq]
+
+theorem C03_partition (p : α → Bool) (xs : List α) : Impl.partition p xs = Spec.partition p xs := by
+  simp [Impl.partition, Spec.partition, partitionLoop_spec]
+
+theorem C03_drop (count : Int) (s : Sl α) :
+    (Impl.drop count s).map Sl.vis = .ok (Spec.drop count s.vis) := by
+  unfold Impl.drop Spec.drop Sl.len
+  by_cases h1 : count ≤ 0
+  · simp [h1, Except.map]
+  · by_cases h2 : count ≥ (s.vis.length : Int)
+    · have : s.vis.length ≤ count.toNat := by omega
+      simp [h1, h2, Except.map, List.drop_eq_nil_of_le this]
+    · have hc : 0 ≤ count ∧ count ≤ (s.vis.length : Int) ∧ (s.vis.length : Int) ≤ s.cap := by
+        unfold Sl.cap; omega
+      simp [h1, h2, Sl.reslice, hc, Except.map]
+
+theorem C03_dropLast (count : Int) (s : Sl α) :
+    (Impl.dropLast count s).map Sl.vis = .ok (Spec.dropLast count s.vis) := by
+  unfold Impl.dropLast Spec.dropLast Sl.len
+  by_cases hnil : s.vis = []
+  · by_cases h1 : count ≤ 0 <;> simp [hnil, h1, Except.map]
+  · have hpos : 0 < s.vis.length := List.length_pos_iff.mpr hnil
+    by_cases h2 : (s.vis.length : Int) ≤ count
+    · have h1 : ¬ count ≤ 0 := by omega
+      have : s.vis.length - count.toNat = 0 := by omega
+      simp [hnil, h1, h2, Except.map, this]
+    · by_cases h1 : count ≤ 0
+      · simp [hnil, h1, h2, Except.map]
+      · have hc : count ≤ (s.vis.length : Int) ∧ (s.vis.length : Int) - count ≤ s.cap := by
+          unfold Sl.cap; omega
+        have e : ((s.vis.length : Int) - count).toNat = s.vis.length - count.toNat := by omega
+        have hle : s.vis.length - count.toNat ≤ s.vis.length := by omega
+        simp [hnil, h1, h2, Sl.reslice, hc, Except.map, e, List.take_append_of_le_length hle]
+
+theorem C03_take (count : Int) (s : Sl α) :
+    (Impl.take count s).map Sl.vis = .ok (Spec.take count s.vis) := by
+  unfold Impl.take Spec.take Sl.len
+  by_cases h1 : count ≤ 0
+  · simp [h1, Except.map]
+  · by_cases h2 : count ≥ (s.vis.length : Int)
+    · have : s.vis.length ≤ count.toNat := by omega
+      simp [h1, h2, Except.map, List.take_of_length_le this]
+    · have hc : (0:Int) ≤ 0 ∧ (0:Int) ≤ count ∧ count ≤ s.cap := by
+        unfold Sl.cap; omega
+      have hle : count.toNat ≤ s.vis.length := by omega
+      simp [h1, h2, Sl.reslice, hc, Except.map, List.take_append_of_le_length hle]
+
+theorem C03_takeLast (count : Int) (s : Sl α) :
+    (Impl.takeLast count s).map Sl.vis = .ok (Spec.takeLast count s.vis) := by
+  unfold Impl.takeLast Spec.takeLast Sl.len
+  by_cases h1 : count ≤ 0
+  · simp [h1, Except.map]
+  · by_cases h2 : count ≥ (s.vis.length : Int)
+    · have : s.vis.length - count.toNat = 0 := by omega
+      simp [h1, h2, Except.map, this]
+    · have hc : (0:Int) ≤ (s.vis.length : Int) - count ∧ (s.vis.length : Int) - count ≤ (s.vis.length : Int)
+          ∧ (s.vis.length : Int) ≤ s.cap := by
+        unfold Sl.cap; omega
+      have e : ((s.vis.length : Int) - count).toNat = s.vis.length - count.toNat := by omega
+      have h3 : count ≤ (s.vis.length : Int) := by omega
+      simp [h1, h2, h3, Sl.reslice, hc, Except.map, e]
+
+theorem C03_tail (s : Sl α) : (Impl.tail s).map Sl.vis = .ok (Spec.tail s.vis) := by
+  have := C03_drop 1 s
+  simpa [Impl.tail, Spec.tail, Spec.drop] using this
+
+theorem C03_head (z : α) (s : Sl α) : Impl.head z s = .ok (Spec.head z s.vis) := by
+  unfold Impl.head Spec.head Sl.len
+  cases hv : s.vis with
+  | nil => simp
+  | cons x t =>
+    have hc : (0:Int) ≤ 0 ∧ (0:Int) ≤ 1 ∧ (1:Int) ≤ s.cap := by
+      unfold Sl.cap; rw [hv]; simp; omega
+    have : ¬ ((t.length : Int) + 1 ≤ 0) := by omega
+    simp [Sl.reslice, hc, hv, this, getN]
+
+theorem C03_duplicateSlice (s : Sl α) : Impl.duplicateSlice s = .ok (Spec.duplicateSlice s.vis) := by
+  unfold Impl.duplicateSlice Spec.duplicateSlice Sl.len
+  cases hv : s.vis with
+  | nil => simp
+  | cons x t =>
+    have hc : (0:Int) ≤ s.cap := by unfold Sl.cap; omega
+    have : (0:Int) < (t.length : Int) + 1 := by omega
+    simp [Sl.reslice3, hc, this, Sl.append]
+
+theorem C03_prepend (x : α) (xs : List α) : Impl.prepend x xs = Spec.prepend x xs := by
+  simp only [Impl.prepend, Spec.prepend, Sl.append]
+  split <;> rfl
+
+theorem C03_isDistinct [DecidableEq α] (xs : List α) : Impl.isDistinct xs = Spec.isDistinct xs := by
+  cases xs with
+  | nil => simp [Impl.isDistinct, Spec.isDistinct]
+  | cons x t => simp [Impl.isDistinct, Spec.isDistinct, isDistinctLoop_spec]
+
+theorem C03_isEqual [DecidableEq α] (xs ys : List α) : Impl.isEqual xs ys = .ok (Spec.isEqual xs ys) := by
+  unfold Impl.isEqual Spec.isEqual
+  by_cases h : xs.length = 0 ∨ ys.length = 0 ∨ xs.length ≠ ys.length
+  · have : (!xs.isEmpty && !ys.isEmpty && decide (xs = ys)) = false := by
+      rcases h with h | h | h
+      · simp [List.eq_nil_of_length_eq_zero h]
+      · simp [List.eq_nil_of_length_eq_zero h]
+      · have : xs ≠ ys := fun e => h (by rw [e])
+        simp [this]
+    simp only [h, if_true, this]
+  · have hl : xs.length = ys.length := by omega
+    have hx : xs ≠ [] := by intro e; simp [e] at h
+    have hy : ys ≠ [] := by intro e; simp [e] at h
+    have := isEqualLoop_spec [] [] xs ys rfl hl
+    simp at this
+    have e1 : xs.isEmpty = false := by cases xs <;> simp_all
+    have e2 : ys.isEmpty = false := by cases ys <;> simp_all
+    rw [hl] at this
+    simp [hx, hy, hl, this, e1, e2]
+
+theorem C03_uniqBy [DecidableEq κ] (g : α → κ) (xs : List α) : Impl.uniqBy g xs = Spec.uniqBy g xs := by
+  have h : List.filter (fun _ : α => true) xs = xs := List.filter_eq_self.mpr (fun _ _ => rfl)
+  simp [Impl.uniqBy, Spec.uniqBy, uniqByLoop_spec, h]
+
+theorem C03_distinct [DecidableEq α] (z : α) (xs : List α) : Impl.distinct z xs = .ok (Spec.distinct xs) := by
+  unfold Impl.distinct Spec.distinct
+  cases xs with
+  | nil => simp [mk]
+  | cons x t =>
+    have h := distinctLoop_spec (x :: t) [] [] (mk (x :: t).length z) (by simp [mk])
+    have hf : List.filter (fun y => decide (y ∉ ([] : List α))) (x :: t) = x :: t :=
+      List.filter_eq_self.mpr (fun _ _ => by simp)
+    rw [hf] at h
+    simp only [List.nil_append, List.length_nil, Nat.zero_add] at h
+    simp only [List.length_cons, gt_iff_lt, Nat.zero_lt_succ, if_true, bind_ok]
+    simp only [List.length_cons] at h
+    rw [h]
+    simp [Sl.reslice, Sl.cap, mk]
+
+theorem C03_filter (z : α) (fn : α → Nat → Bool) (xs : List α) :
+    Impl.filter z fn xs = .ok (Spec.filter fn xs) := by
+  unfold Impl.filter Spec.filter
+  have h := filterLoop_spec fn xs 0 [] (mk xs.length z) (by simp [mk])
+  simp only [List.nil_append, List.length_nil, Nat.zero_add] at h
+  have h0 : ((0 : Nat) : Int) = 0 := rfl
+  rw [h0] at h
+  rw [h]
+  simp only [bind_ok, reslice_prefix, pure_eq_ok]
+
+theorem C03_reject (z : α) (fn : α → Nat → Bool) (xs : List α) :
+    Impl.reject z fn xs = .ok (Spec.reject fn xs) := by
+  simpa [Impl.reject, Spec.reject, Spec.filter] using C03_filter z (fun v i => !fn v i) xs
+
+end FpgoVerif.C03
